@@ -15,7 +15,7 @@
 EXTENDS Rat, Sequences, TLC
 CONSTANTS Grids,      \* set of [x, y] records, x strictly increasing integer sequence, y integer sequence
           Queries,    \* set of rationals <<num, den>>
-          Extraps,    \* subset of {"nan", "const", "bound", "mirror", "periodic"}
+          Extraps,    \* subset of {"nan", "const", "const0", "constneg", "bound", "mirror", "periodic"}
           YModes      \* subset of {"init", "call", "both", "none"}
 VARIABLES g, q, extrap, ymode, pred
 vars == <<g, q, extrap, ymode, pred>>
@@ -45,6 +45,8 @@ Predict ==
         IF Inside(g, q) THEN [cls |-> "value", warn |-> w, pos |-> q, v |-> Linear(g, q)]
         ELSE CASE extrap = "nan" -> [cls |-> "nan", warn |-> w, pos |-> q, v |-> R(0)]
                [] extrap = "const" -> [cls |-> "const", warn |-> w, pos |-> q, v |-> ConstVal]
+               [] extrap = "const0" -> [cls |-> "const", warn |-> w, pos |-> q, v |-> R(0)]          \* the padding constant zero is a constant like any other
+               [] extrap = "constneg" -> [cls |-> "const", warn |-> w, pos |-> q, v |-> R(0 - 3)]
                [] OTHER -> LET p == Map(g, q, extrap) IN [cls |-> "value", warn |-> w, pos |-> p, v |-> Linear(g, p)]
 Init == /\ g \in Grids /\ q \in Queries /\ extrap \in Extraps /\ ymode \in YModes /\ pred = Predict
 Next == UNCHANGED vars
